@@ -4,6 +4,7 @@ package zipslicer
 
 import (
 	"bytes"
+	"encoding/binary"
 	"time"
 )
 
@@ -71,4 +72,92 @@ func VH_C17_WrittenArchiveReadBack() {
 	rd2, err := Read(bytes.NewReader(out), int64(len(out)))
 	vhAssert(err == nil && len(rd2.File) == 2 && rd2.DirLoc == int64(end0), "second-round-archive-reads-back")
 	vhReach("twice") // vh:require twice
+}
+
+func vhExtra(n int) []byte {
+	// n/4 empty records of an application-defined tag
+	var e []byte
+	for i := 0; i < n/4; i++ {
+		e = append(e, 0x77, 0x77, 0, 0)
+	}
+	return e
+}
+
+// H17.extra: the local header's extra field and the central directory's copy
+// are separate fields and commonly differ in length (extended timestamps,
+// zipalign padding, local-only ZIP64 records). A member's on-disk size is
+// governed by the local one: for every combination of the two lengths, with
+// and without a data descriptor, each member's size reaches the next member /
+// the directory, and re-indexing the untouched archive reproduces it.
+func VH_C17_LocalExtraDiffers() {
+	vhMaxLen(600)
+	lens := []int{0, 4, 8}
+	var f bytes.Buffer
+	type mem struct {
+		name           string
+		data           []byte
+		lextra, cextra []byte
+		desc           bool
+		off            int
+	}
+	ms := []*mem{{name: "a", data: vhBytes("data0", 1)}, {name: "b", data: vhBytes("data1", 2)}}
+	for i, m := range ms {
+		m.lextra = vhExtra(lens[vhConcretize(vhInt("local-extra", 0, 2), 3)])
+		m.cextra = vhExtra(lens[vhConcretize(vhInt("central-extra", 0, 2), 3)])
+		m.desc = i == 0 && vhBool("descriptor")
+	}
+	for _, m := range ms {
+		m.off = f.Len()
+		h := zipLocalHeader{Signature: fileHeaderSignature, ReaderVersion: zip20, CompressedSize: uint32(len(m.data)), UncompressedSize: uint32(len(m.data)), FilenameLen: uint16(len(m.name)), ExtraLen: uint16(len(m.lextra))}
+		if m.desc {
+			h.Flags, h.CompressedSize, h.UncompressedSize = 8, 0, 0
+		}
+		binary.Write(&f, binary.LittleEndian, h)
+		f.WriteString(m.name)
+		f.Write(m.lextra)
+		f.Write(m.data)
+		if m.desc {
+			binary.Write(&f, binary.LittleEndian, zipDataDesc{Signature: dataDescriptorSignature, CompressedSize: uint32(len(m.data)), UncompressedSize: uint32(len(m.data))})
+		}
+	}
+	cdStart := f.Len()
+	for _, m := range ms {
+		h := zipCentralDir{Signature: directoryHeaderSignature, ReaderVersion: zip20, CompressedSize: uint32(len(m.data)), UncompressedSize: uint32(len(m.data)), FilenameLen: uint16(len(m.name)), ExtraLen: uint16(len(m.cextra)), Offset: uint32(m.off)}
+		if m.desc {
+			h.Flags = 8
+		}
+		binary.Write(&f, binary.LittleEndian, h)
+		f.WriteString(m.name)
+		f.Write(m.cextra)
+	}
+	cdSize := f.Len() - cdStart
+	binary.Write(&f, binary.LittleEndian, zipEndRecord{Signature: directoryEndSignature, DiskCDCount: 2, TotalCDCount: 2, CDSize: uint32(cdSize), CDOffset: uint32(cdStart)})
+	file := f.Bytes()
+	d, err := Read(bytes.NewReader(file), int64(len(file)))
+	vhAssert(err == nil && len(d.File) == 2, "archive-parses")
+	if err != nil || len(d.File) != 2 {
+		return
+	}
+	s0, e0 := d.File[0].GetTotalSize()
+	s1, e1 := d.File[1].GetTotalSize()
+	vhAssert(e0 == nil && e1 == nil, "sizes-available")
+	vhAssert(int64(d.File[0].Offset)+s0 == int64(ms[1].off), "member-size-reaches-next-member")
+	vhAssert(int64(d.File[1].Offset)+s1 == int64(cdStart), "member-size-reaches-directory")
+	next, err := d.NextFileOffset()
+	vhAssert(err == nil && next == int64(cdStart), "next-file-offset-is-the-directory")
+	m, err := d.Mangle(func(mf *MangleFile) error { return nil })
+	vhAssert(err == nil, "contiguous-archive-can-be-re-indexed")
+	if err != nil {
+		return
+	}
+	patch, err := m.MakePatch(false)
+	vhAssert(err == nil, "contiguous-archive-can-be-re-indexed")
+	if err != nil {
+		return
+	}
+	out := vhApply(file, patch)
+	vhAssert(len(out) >= cdStart && bytes.Equal(out[:cdStart], file[:cdStart]), "members-untouched")
+	rd, err := Read(bytes.NewReader(out), int64(len(out)))
+	vhAssert(err == nil && len(rd.File) == 2 && rd.DirLoc == int64(cdStart) && int(rd.File[1].Offset) == ms[1].off, "re-indexed-archive-reads-back")
+	vhReach("sized") // vh:require sized
 }
